@@ -1165,7 +1165,7 @@ pub fn run(args: &Args) -> Option<i32> {
     mon.assume("single mints are kept below 3000 cost steps (the program loops once per step); amounts otherwise arbitrary incl. u64::MAX");
     mon.assume("prices are constant (BTC 60000, SOL 150, USDC 1); orders are short positions with USDC collateral; order fees use the market's default fee factors");
     let shards = args.scale(64, 512);
-    let hist_per_shard = args.scale(10, 12);
+    let hist_per_shard = args.scale(20, 12);
     let (seed, tier_ops) = (args.seed, args.scale(70, 110));
     run_shards(&mut mon, args.threads, shards, |shard, m| {
         let base = base_world();
